@@ -113,3 +113,30 @@ def attach_bounded_witness(rep: Report) -> None:
             v.no_failing_input = False
             v.replay = dict(v.replay, bounded_witness=witnesses[0].replay, case=witnesses[0].replay.get("case"), module=witnesses[0].replay.get("module"))
             v.what += " | failing input from the bounded contract run: " + witnesses[0].what[:200]
+
+
+def proof_findings(rep: Report, witnesses: Dict[str, Callable[[], dict]]) -> None:
+    """recorded proof-side findings (known_findings.json entries whose key is an obligation name):
+    if the obligation is discharged now, the finding is gone and nothing is printed; otherwise its stored native witness
+    is replayed and must still fail (-> a Violation with the finding's key, which vlib.core prints as KNOWN-FINDING);
+    the residual obligation outside the finding's region is an ordinary obligation of the same target."""
+    from vlib.core import findings_for
+    listed = {f["key"] for f in findings_for(rep.property_id)}
+    status = {o.name: o for o in rep.obligations}
+    for name, wit in witnesses.items():
+        o = status.get(name)
+        if o is None or o.status == "discharged":
+            continue
+        try:
+            out = wit()
+        except Exception as ex:
+            rep.errors.append("witness of finding %s crashed: %r" % (name, ex))
+            continue
+        if out.get("fails"):
+            # drop a generic lock-based violation for the same obligation, the witness is the better report
+            rep.violations = [v for v in rep.violations if v.key != name]
+            rep.violations.append(Violation(key=name, what="obligation %s not discharged; native witness still fails: %s" % (name, str(out.get("observed"))[:300]),
+                                            replay={"obligation": name, "case": out.get("case"), "observed": out.get("observed"), "witness": getattr(wit, "__name__", "")}))
+            o.detail = (o.detail + " | recorded finding, witness replayed natively")[:300]
+        elif name in listed:
+            rep.extra.setdefault("stale_findings", []).append(name)
